@@ -38,7 +38,8 @@ ASSUMPTIONS = ['a factoid row c0..cn means 0 <= c0*x0+..+c(n-1)*x(n-1)+cn over t
                '"unsatisfiable"/"contradiction" is refuted only by an exactly verified witness (planted, box search or Z3 model); '
                'Z3 "unsat" is never used against the code',
                'integer box for brute force: radius 60/30/8/4/2 for 1..5 variables',
-               'non-termination is cut by logical budgets (pivots, handle_assertion calls) and counted, not judged']
+               'non-termination is cut by logical budgets (400 pivots / 120-150 handle_assertion calls per case) and a 6 s '
+               'CPU-time watchdog per case (3 firings abort the shard); a firing is counted (and makes the run inconclusive above 0.5 % of a shard), never judged']
 REQUIRED = {
     'quick': {'calibration_ok': 16, 'rational-simplex-shards-terminating': 6, 'hook:omega.solve_matrix': 3000, 'omega.solve_matrix:SAT-judged': 1500,
               'omega.solve_matrix:UNSAT-judged': 600, 'omega.solve_matrix:normalised-decided': 1500,
@@ -218,6 +219,7 @@ class BudgetExceeded(Exception):
 class State:
     def __init__(self):
         self.events = []
+        self.fired = 0
         self.reset()
 
     def reset(self, max_pivots=400, max_ha=120):
@@ -1118,8 +1120,30 @@ def gen_case(rng, drv):
     return sysd, opts
 
 
+CASE_CPU_S = 6.0     # per-case CPU-time watchdog (ITIMER_VIRTUAL: process CPU time, not wall clock); firing = inconclusive
+
+
+def _watchdog(signum, frame):
+    ST.over = True
+    ST.fired += 1
+    raise BudgetExceeded('cpu watchdog')
+
+
 def run_case(ctx, drv, sysd, opts, sample=False):
-    res = DRIVERS[drv](ctx, sysd, opts)
+    import signal
+    signal.signal(signal.SIGVTALRM, _watchdog)
+    signal.setitimer(signal.ITIMER_VIRTUAL, CASE_CPU_S)
+    try:
+        res = DRIVERS[drv](ctx, sysd, opts)
+    except BudgetExceeded:
+        ctx.count(drv + ':case-watchdog:budget-exceeded')
+        ctx.case((drv, json.dumps(sysd['rows'])), nontrivial=False)
+        return
+    finally:
+        signal.setitimer(signal.ITIMER_VIRTUAL, 0)
+        if ST.fired:
+            ctx.count('watchdog-fired', ST.fired)
+            ST.fired = 0
     if drv == 'omega_matrix':
         if res is None:
             ctx.case((drv, json.dumps(sysd['rows'])), nontrivial=False)
@@ -1159,6 +1183,10 @@ def run_shard(ctx, spec):
         sysd, opts = gen_case(ctx.rng, drv)
         ctx.count('shape:' + sysd['shape'])
         run_case(ctx, drv, sysd, opts, sample=(k < 2 and spec['i'] == 0))
+        if ctx.counters.get(drv + ':case-watchdog:budget-exceeded', 0) + ctx.counters.get('watchdog-fired', 0) >= 3:
+            ctx.count('shard-aborted-after-3-watchdog-firings')
+            ctx.note('%s/%d aborted after %d systems: the per-case CPU watchdog fired 3 times' % (drv, spec['i'], k + 1))
+            return
     if spec['i'] == 0:
         ctx.note('shard %s/0: %d systems in %.1f s (reporting only)' % (drv, spec['n'], time.time() - t0))
     if drv in ('simplex', 'strict'):
